@@ -218,8 +218,12 @@ def parent_under_guard(prog):
 
 
 def fail_key(prog, what):
+    """the class of failing input (what known_findings.json matches on).  Every
+    failure of a program with a guarded parent group gets the one key of the
+    template-indentation defect (proposed_fixes/C03-subgroup-template-
+    indentation.diff); all other programs get a key that says what differed."""
     if parent_under_guard(prog):
-        return 'C03:sub-groups-under-condition-or-iterate:' + what
+        return 'C03:sub-groups-under-condition-or-iterate'
     return 'C03:' + what
 
 
@@ -912,11 +916,13 @@ def check_variant(R, prog, var, res, tag, model_out):
                           for e in all_eqs(prog)] + [0])
             R.count('excluded-point:min>max passes observed: %d' % passes)
     else:
+        sr = SpecRun(prog, var, res['snaps'])
         try:
-            exp = SpecRun(prog, var, res['snaps']).run()
+            sr.run()
             err = None
         except IndexError as e:
-            exp, err = [], str(e)
+            err = str(e)
+        exp = sr.ev
         exp_c = canon(exp)
         if err or exp_c != obs_c:
             k = next((i for i, (x, y) in enumerate(zip(exp_c, obs_c)) if x != y),
